@@ -18,6 +18,8 @@ the state tree (`serialize`), so "rebuild = fresh render" is a statement by stru
 | `View.either c a b`          | `move || if c { Either::Left(a) } else { Either::Right(b) }`: `Either::rebuild` (tachys/src/view/either.rs): same side → `rebuild` the branch, other side → `build`, `insert_before_this`, `unmount` |
 | `View.show c a b`            | leptos `Show` (leptos/src/show.rs): `ArcMemo::new(when)` + `move || match memo.get() { true => Left(children()), false => Right(fallback.run()) }` |
 | `View.forKeyed sel lists`    | leptos `For` (leptos/src/for_loop.rs): `move || keyed(each(), key, children)`, rows `<li>{k}</li>`; the list update is `Leptos.Keyed.rebuild` (tachys/src/view/keyed.rs) |
+| `View.scope sid d kid`       | a component body that creates reactive state of its own before it returns its view: `let m = Memo::new(..)` / `let l = RwSignal::new(..)`; `kid` reads it through `Expr.loc`.  The value lives in the arena under the CURRENT owner (the render effect whose run constructs the view, the row's owner, the mount owner) and is disposed when that owner is cleaned up (`killAll`) |
+| `View.forRows sel lists row` | leptos `For` whose rows have content of their own: `children=|k| <li>{k}{row}</li>`, every row under its own `Owner` (a child of the owner of the `<For>` component, NOT of the list's render effect: rows that the keyed diff keeps keep their reactive state) |
 | `newEff`                     | `RenderEffect::new_with_value_erased` (reactive_graph/src/effect/render_effect.rs): run `fun` under the new observer, THEN spawn the task (so effects built inside `fun` are spawned before it) |
 | `build`                      | `Render::build` of each of the above; element: create, attributes in order, children built then mounted (`+1` mutation per top-level child) |
 | `rebuild`                    | `Render::rebuild` of a freshly constructed view against the old state: static structure is kept; a reactive attribute becomes a NEW effect over the old attribute state (`RenderEffect::new_with_value(.., state.take_value())`); a reactive child (`F::rebuild`) is built anew, mounted before the old one, the old one unmounted and dropped |
@@ -54,6 +56,34 @@ inductive Attr where
   | sty (name : String) (e : Expr)
   deriving Repr, BEq, Inhabited, DecidableEq
 
+/-- state created by a component body -/
+inductive LDef where
+  | memo (body : Expr)
+  | sig (init : Int)
+  deriving Repr, BEq, Inhabited, DecidableEq
+
+def LDef.isSig : LDef → Bool
+  | .memo _ => false
+  | .sig _ => true
+
+/-! Expressions of the view may refer to the state of enclosing `scope`s and to the key of the enclosing
+row.  `Reactive.Expr` has no constructor for that; view programs never use untracked reads
+(`View.wf`), so they are used as the encoding: `rd false 0` is the row key, `rd false (j+1)` the `j`-th
+enclosing `scope` (innermost first).  `Expr.resolve` replaces them when the dynamic part is built. -/
+def _root_.Leptos.Reactive.Expr.key : Expr := .rd false 0
+def _root_.Leptos.Reactive.Expr.loc (j : Nat) : Expr := .rd false (j + 1)
+
+def _root_.Leptos.Reactive.Expr.resolve (ls : List Nat) (key : Int) : Expr → Expr
+  | .lit n => .lit n
+  | .rd true id => .rd true id
+  | .rd false 0 => .lit key
+  | .rd false (j + 1) => .rd true (ls.getD j 0)
+  | .add a b => .add (a.resolve ls key) (b.resolve ls key)
+  | .mulc k a => .mulc k (a.resolve ls key)
+  | .ite c t e => .ite (c.resolve ls key) (t.resolve ls key) (e.resolve ls key)
+  | .seq a b => .seq (a.resolve ls key) (b.resolve ls key)
+  | .wr id a => .wr id (a.resolve ls key)
+
 inductive View where
   | text (s : String)
   | unit
@@ -63,6 +93,8 @@ inductive View where
   | either (c : Expr) (a b : View)
   | show (c : Expr) (a b : View)
   | forKeyed (sel : Expr) (lists : List (List Nat))
+  | scope (sid : Nat) (d : LDef) (kid : View)
+  | forRows (sel : Expr) (lists : List (List Nat)) (row : View)
   deriving Repr, BEq, Inhabited, DecidableEq
 
 /-! ## retained state = DOM -/
@@ -94,6 +126,13 @@ inductive RState where
   | show (e m : Nat) (c : Expr) (a b : View) (left : Bool) (inner : RState)
   /-- `RenderEffectState<KeyedState>`: `texts` maps an item's `<li>` id to its text node id -/
   | forK (e : Nat) (sel : Expr) (lists : List (List Nat)) (ks : Keyed.KState) (texts : List (Nat × Nat))
+  /-- a component body with the node `m` it created -/
+  | scope (m : Nat) (sid : Nat) (isSig : Bool) (inner : RState)
+  /-- `RenderEffectState<KeyedState>` with rows that have states of their own: `items` is the chain of
+  the rows (`rowCons` / `rowNil`) in DOM order, each row the state of `<li>{k}{row}</li>` -/
+  | rows (e : Nat) (sel : Expr) (lists : List (List Nat)) (row : View) (ks : Keyed.KState) (items : RState)
+  | rowCons (key : Nat) (row : RState) (rest : RState)
+  | rowNil
   deriving Repr, Inhabited
 
 /-- number of top-level DOM nodes of a state (what `mount` inserts and `unmount` removes) -/
@@ -106,6 +145,10 @@ def RState.tops : RState → Nat
   | .either _ _ _ _ _ inner => inner.tops
   | .show _ _ _ _ _ _ inner => inner.tops
   | .forK _ _ _ ks _ => ks.w.kids.length
+  | .scope _ _ _ inner => inner.tops
+  | .rows _ _ _ _ ks _ => ks.w.kids.length
+  | .rowCons _ _ _ => 0
+  | .rowNil => 0
 
 structure St where
   /-- signals, memos and (appended as they are created) render effects; ids are positions -/
@@ -121,7 +164,18 @@ structure St where
   rootN : N := ⟨0, 0⟩
   mounted : Bool := false
   disposed : Bool := false
+  /-- the state of the enclosing `scope`s of the part being built (innermost first) and the key of the
+  enclosing row: what the closures of the view capture -/
+  locals : List Nat := []
+  key : Int := 0
+  /-- every component-local signal ever created: `(sid, node)` -/
+  locSigs : List (Nat × Nat) := []
+  /-- component-local nodes whose owner was cleaned up -/
+  dead : List Nat := []
   deriving Inhabited
+
+/-- an expression of the view as the closure being built sees it -/
+def St.res (st : St) (x : Expr) : Expr := x.resolve st.locals st.key
 
 def St.fuel (st : St) : Nat := Reactive.fuelFor st.prog
 
@@ -163,12 +217,43 @@ def RState.held : RState → List (Nat × Option RState)
   | .either e _ _ _ _ inner => [(e, some inner)]
   | .show e _ _ _ _ _ inner => [(e, some inner)]
   | .forK e _ _ _ _ => [(e, none)]
+  | .scope _ _ _ inner => inner.held
+  | .rows e _ _ _ _ items => [(e, some items)]
+  | .rowCons _ r rest => r.held ++ rest.held
+  | .rowNil => []
+
+/-- the component-local nodes of a state, nested ones included -/
+def RState.locals : RState → List Nat
+  | .text _ _ => []
+  | .unit _ => []
+  | .elem _ _ _ kid => kid.locals
+  | .seq a b => a.locals ++ b.locals
+  | .dynText _ _ _ _ => []
+  | .either _ _ _ _ _ inner => inner.locals
+  | .show _ _ _ _ _ _ inner => inner.locals
+  | .forK _ _ _ _ _ => []
+  | .scope m _ _ inner => m :: inner.locals
+  | .rows _ _ _ _ _ items => items.locals
+  | .rowCons _ r rest => r.locals ++ rest.locals
+  | .rowNil => []
+
+/-- the arena slot of a memo / signal is removed: its sources no longer reach it, it reaches nobody;
+subscribers keep a dead `Weak` (`update_if_necessary` of a dead source is `false`) -/
+def killNode (rs : Reactive.State) (m : Nat) : Reactive.State :=
+  let rs := (rs.get m).sources.foldl
+    (fun rs x => rs.upd x fun n => { n with subs := n.subs.filter (· != m) }) rs
+  rs.upd m fun n => { n with subs := [], sources := [], st := .clean }
+
+/-- `Owner::cleanup` / `Drop for OwnerInner` reach the owner of these nodes -/
+def killAll (st : St) : List Nat → St
+  | [] => st
+  | l => { st with rs := l.foldl killNode st.rs, dead := st.dead ++ l }
 
 def dropAll (st : St) (l : List (Nat × Option RState)) : St :=
   l.foldl (fun st eh => dropEff st eh.1 eh.2) st
 
 /-- a state is dropped: every render effect it owns directly is dropped -/
-def dropState (st : St) (t : RState) : St := dropAll st t.held
+def dropState (st : St) (t : RState) : St := dropAll (killAll st t.locals) t.held
 
 /-! ## build -/
 
@@ -181,13 +266,13 @@ def listAt (lists : List (List Nat)) (v : Int) : List Nat :=
 def buildAttr (st : St) : Attr → AState × St × Nat
   | .stat n v => (.stat n v, st, 1)
   | .dyn n x =>
-    let (e, v, st) := newEff st x
+    let (e, v, st) := newEff st (st.res x)
     (.dyn e n x v, st.spawn e, 1)
   | .cls n x =>
-    let (e, v, st) := newEff st x
+    let (e, v, st) := newEff st (st.res x)
     (.cls e n x (v != 0), st.spawn e, if v != 0 then 1 else 0)
   | .sty n x =>
-    let (e, v, st) := newEff st x
+    let (e, v, st) := newEff st (st.res x)
     (.sty e n x v, st.spawn e, 1)
 
 def buildAttrs : List Attr → St → List AState × St × Nat
@@ -204,6 +289,47 @@ def buildFor (st : St) (keys : List Nat) : Keyed.KState × List (Nat × Nat) × 
   let lis := List.range' st.next keys.length
   let texts := lis.zip (List.range' ks.w.next keys.length)
   (ks, texts, { st with next := ks.w.next + keys.length })
+
+/-- a component body runs `Memo::new` / `RwSignal::new` -/
+def newLocal (st : St) (sid : Nat) : LDef → Nat × St
+  | .memo b => st.addDef (.memo (st.res b))
+  | .sig v =>
+    let (m, st) := st.addDef (.sig v)
+    (m, { st with locSigs := st.locSigs ++ [(sid, m)] })
+
+/-- key of the row whose `<li>` has id `li` -/
+def keyOfLi (ks : Keyed.KState) (li : Nat) : Option Nat :=
+  (ks.w.storage.filterMap id).findSome? fun it => if it.nodes.contains li then some it.key else none
+
+/-- the `<li>` of the row keyed `k` -/
+def liOf (ks : Keyed.KState) (k : Nat) : Nat :=
+  (((ks.w.storage.filterMap id).find? (·.key == k)).bind (·.nodes.head?)).getD 0
+
+/-- state of `<li>{k}{row}</li>`: the element, the text node of the key, the state of the row's own view -/
+def mkRow (li : Nat) (k : Nat) (t : N) (inner : RState) : RState :=
+  .elem ⟨li, 1 + inner.tops⟩ "li" [] (.seq (.text t (toString k)) inner)
+
+def mkChain : List (Nat × RState) → RState
+  | [] => .rowNil
+  | (k, r) :: rest => .rowCons k r (mkChain rest)
+
+def RState.findRow : RState → Nat → Option RState
+  | .rowCons k r rest, key => if k = key then some r else rest.findRow key
+  | _, _ => none
+
+/-- one row is built (`b` = `build` of the row's view): `view_fn(index, item)` then `build`; the row sees
+its key and no outer `scope` -/
+def rowStep (ks : Keyed.KState) (b : St → RState × St) (acc : List (Nat × RState) × St) (k : Nat) :
+    List (Nat × RState) × St :=
+  let t := acc.2.alloc.1
+  let r := b { acc.2.alloc.2 with locals := [], key := (k : Int) }
+  (acc.1 ++ [(k, mkRow (liOf ks k) k t r.1)], { r.2 with locals := acc.2.locals, key := acc.2.key })
+
+/-- a row leaves the list: its state is dropped, its owner with it -/
+def dropRow (items : RState) (st : St) (k : Nat) : St :=
+  match items.findRow k with
+  | some r => dropState st r
+  | none => st
 
 /-- `Render::build` (the result is not yet mounted) -/
 def build : View → St → RState × St
@@ -223,23 +349,36 @@ def build : View → St → RState × St
     let (sb, st) := build b st
     (.seq sa sb, st)
   | .dynText x, st =>
-    let (e, v, st) := newEff st x
+    let (e, v, st) := newEff st (st.res x)
     let (n, st) := st.alloc
     (.dynText e x n v, st.spawn e)
   | .either c a b, st =>
-    let (e, v, st) := newEff st c
+    let (e, v, st) := newEff st (st.res c)
     let (inner, st) := if v != 0 then build a st else build b st
     (.either e c a b (v != 0) inner, st.spawn e)
   | .show c a b, st =>
     -- `ArcMemo::new(move |_| when())` is a memo over the BOOLEAN
-    let (m, st) := st.addDef (.memo (.ite c (.lit 1) (.lit 0)))
+    let (m, st) := st.addDef (.memo (.ite (st.res c) (.lit 1) (.lit 0)))
     let (e, v, st) := newEff st (.rd true m)
     let (inner, st) := if v != 0 then build a st else build b st
     (.show e m c a b (v != 0) inner, st.spawn e)
   | .forKeyed sel lists, st =>
-    let (e, v, st) := newEff st sel
+    let (e, v, st) := newEff st (st.res sel)
     let (ks, texts, st) := buildFor st (listAt lists v)
     (.forK e sel lists ks texts, st.spawn e)
+  | .scope sid d kid, st =>
+    let (m, st) := newLocal st sid d
+    let saved := st.locals
+    let (inner, st) := build kid { st with locals := m :: st.locals }
+    (.scope m sid d.isSig inner, { st with locals := saved })
+  | .forRows sel lists row, st =>
+    let (e, v, st) := newEff st (st.res sel)
+    let keys := listAt lists v
+    let ks := (Keyed.build 1 keys [] st.next).mount none
+    let st := { st with next := ks.w.next }
+    -- item by item
+    let (rs, st) := keys.foldl (rowStep ks (build row)) ([], st)
+    (.rows e sel lists row ks (mkChain rs), st.spawn e)
 
 /-! ## rebuild: a fresh view of the same shape against the old state -/
 
@@ -253,15 +392,15 @@ def replace (v : View) (old : RState) (st : St) : RState × St × Nat :=
 def rebuildAttr (st : St) : Attr → AState → AState × St × Nat
   | .stat n v, .stat _ v' => (.stat n v, st, if v = v' then 0 else 1)
   | .dyn n x, .dyn e0 _ _ last =>
-    let (e, v, st) := newEff st x
+    let (e, v, st) := newEff st (st.res x)
     let st := dropEff (st.spawn e) e0 none
     (.dyn e n x v, st, if v = last then 0 else 1)
   | .cls n x, .cls e0 _ _ last =>
-    let (e, v, st) := newEff st x
+    let (e, v, st) := newEff st (st.res x)
     let st := dropEff (st.spawn e) e0 none
     (.cls e n x (v != 0), st, if (v != 0) = last then 0 else 1)
   | .sty n x, .sty e0 _ _ last =>
-    let (e, v, st) := newEff st x
+    let (e, v, st) := newEff st (st.res x)
     let st := dropEff (st.spawn e) e0 none
     (.sty e n x v, st, if v = last then 0 else 1)
   -- a different attribute type at the same position cannot happen (the view type is fixed)
@@ -289,6 +428,12 @@ def rebuild : View → RState → St → RState × St × Nat
     let (sa, st, da) := rebuild a sa st
     let (sb, st, db) := rebuild b sb st
     (.seq sa sb, st, da + db)
+  | .scope sid d kid, .scope m0 _ _ inner, st =>
+    -- the freshly constructed view has created new state; the old one went with the owner's cleanup
+    let (m, st) := newLocal (killAll st [m0]) sid d
+    let saved := st.locals
+    let (inner, st, dl) := rebuild kid inner { st with locals := m :: st.locals }
+    (.scope m sid d.isSig inner, { st with locals := saved }, dl)
   | v, old, st => replace v old st
 
 /-! ## re-running one render effect -/
@@ -305,6 +450,27 @@ def rerunFor (st : St) (ks : Keyed.KState) (texts : List (Nat × Nat)) (keys : L
   let texts' := texts.filter (fun p => ks'.w.kids.contains p.1) ++ lis.zip (List.range' ks'.w.next nb)
   let delta := ks'.w.log.unmounts.length + nb + 2 * (Keyed.domMovedKeys Keyed.diff frm keys).length
   (ks', texts', { st with next := ks'.w.next + nb }, delta)
+
+/-- the `<For>` effect of a list with rows of their own runs again: `Keyed::rebuild` decides which
+`<li>`s leave, stay, move and are built; a row that leaves is dropped (its owner with it), a row that
+stays keeps its state untouched, new rows are built in the order `apply_diff` adds them -/
+def rerunRows (st : St) (row : View) (ks : Keyed.KState) (items : RState) (keys : List Nat) :
+    Keyed.KState × RState × St × Nat :=
+  let frm := ks.hashed
+  let n0 := max ks.w.next st.next
+  let ks' := Keyed.rebuild { ks with w := { ks.w with next := n0 } } keys
+  let st := { st with next := ks'.w.next }
+  let st := ks'.w.log.unmounts.foldl (dropRow items) st
+  let (new, st) := (ks'.w.log.builds.map (·.1)).foldl (rowStep ks' (build row)) ([], st)
+  let chain := ks'.w.kids.filterMap fun li =>
+    if li == ks'.marker then none else
+    let k := (keyOfLi ks' li).getD 0
+    match (new.find? (·.1 == k)).map (·.2) with
+    | some r => some (k, r)
+    | none => (items.findRow k).map fun r => (k, r)
+  let delta := ks'.w.log.unmounts.length + ks'.w.log.builds.length
+    + 2 * (Keyed.domMovedKeys Keyed.diff frm keys).length
+  (ks', mkChain chain, st, delta)
 
 def rerunAttr (e : Nat) (v : Int) : AState → AState × Nat
   | .stat n s => (.stat n s, 0)
@@ -366,6 +532,22 @@ def rerunIn (e : Nat) (v : Int) : RState → St → RState × St × Nat
       let (ks, texts, st, d) := rerunFor st ks texts (listAt lists v)
       (.forK e' sel lists ks texts, st, d)
     else (.forK e' sel lists ks texts, st, 0)
+  | .scope m sid isSig inner, st =>
+    let (inner, st, d) := rerunIn e v inner st
+    (.scope m sid isSig inner, st, d)
+  | .rows e' sel lists row ks items, st =>
+    if e' = e then
+      let (ks, items, st, d) := rerunRows st row ks items (listAt lists v)
+      (.rows e' sel lists row ks items, st, d)
+    else
+      -- what happens inside a row stays inside its `<li>`
+      let (items, st, _) := rerunIn e v items st
+      (.rows e' sel lists row ks items, st, 0)
+  | .rowCons k r rest, st =>
+    let (r, st, _) := rerunIn e v r st
+    let (rest, st, _) := rerunIn e v rest st
+    (.rowCons k r rest, st, 0)
+  | .rowNil, st => (.rowNil, st, 0)
 
 /-- the same for the values held by zombies (their DOM is detached: the counts are dropped) -/
 def rerunZombies (e : Nat) (v : Int) : List (Nat × Option RState) → St → List (Nat × Option RState) × St
@@ -445,6 +627,12 @@ def mount (st : St) (v : View) : St :=
 def setSig (st : St) (id : Nat) (v : Int) : St :=
   { st with rs := (Reactive.step st.prog st.rs (.set id v)).1 }
 
+/-- a write through the handles the harness keeps: every live component-local signal of `scope sid`
+(outside the operations of the theorems: views of their class have no component-local state) -/
+def setLocal (st : St) (sid : Nat) (v : Int) : St :=
+  st.locSigs.foldl (fun st sm =>
+    if sm.1 == sid && !st.dead.contains sm.2 then setSig st sm.2 v else st) st
+
 /-- the `UnmountHandle` is dropped -/
 def dispose (st : St) : St :=
   match st.root with
@@ -502,10 +690,6 @@ def AState.out : AState → AOut
   | .cls _ n _ last => .cls n last
   | .sty _ n _ last => .sty n (.px last)
 
-/-- key of the row whose `<li>` has id `li` -/
-def keyOfLi (ks : Keyed.KState) (li : Nat) : Option Nat :=
-  (ks.w.storage.filterMap id).findSome? fun it => if it.nodes.contains li then some it.key else none
-
 /-- the rows in DOM order: every child of the region except the marker -/
 def forRows (ks : Keyed.KState) : List Nat :=
   (ks.w.kids.filter (· != ks.marker)).map fun li => (keyOfLi ks li).getD 0
@@ -522,6 +706,10 @@ def serialize : RState → List Tok
   | .either _ _ _ _ _ inner => serialize inner
   | .show _ _ _ _ _ _ inner => serialize inner
   | .forK _ _ _ ks _ => (forRows ks).flatMap rowTree ++ [.comment]
+  | .scope _ _ _ inner => serialize inner
+  | .rows _ _ _ _ _ items => serialize items ++ [.comment]
+  | .rowCons _ r rest => serialize r ++ serialize rest
+  | .rowNil => []
 
 def renderAttr (ρ : Nat → Int) : Attr → AOut
   | .stat n v => .plain n (.lit v)
@@ -529,7 +717,66 @@ def renderAttr (ρ : Nat → Int) : Attr → AOut
   | .cls n x => .cls n (Reactive.evalPure ρ x != 0)
   | .sty n x => .sty n (.px (Reactive.evalPure ρ x))
 
-/-- the from-scratch DOM of a view for node values `ρ` -/
+/-- an expression of the view for given values of the enclosing `scope`s and the row key -/
+def _root_.Leptos.Reactive.Expr.valued (lv : List Int) (key : Int) : Expr → Expr
+  | .lit n => .lit n
+  | .rd true id => .rd true id
+  | .rd false 0 => .lit key
+  | .rd false (j + 1) => .lit (lv.getD j 0)
+  | .add a b => .add (a.valued lv key) (b.valued lv key)
+  | .mulc k a => .mulc k (a.valued lv key)
+  | .ite c t e => .ite (c.valued lv key) (t.valued lv key) (e.valued lv key)
+  | .seq a b => .seq (a.valued lv key) (b.valued lv key)
+  | .wr id a => .wr id (a.valued lv key)
+
+def renderAttrL (ρ : Nat → Int) (lv : List Int) (key : Int) : Attr → AOut
+  | .stat n v => .plain n (.lit v)
+  | .dyn n x => .plain n (.int (Reactive.evalPure ρ (x.valued lv key)))
+  | .cls n x => .cls n (Reactive.evalPure ρ (x.valued lv key) != 0)
+  | .sty n x => .sty n (.px (Reactive.evalPure ρ (x.valued lv key)))
+
+/-- the from-scratch DOM of a view with component-local state: `lv` = values of the enclosing `scope`s,
+`key` = key of the enclosing row, `path` = keys of all enclosing rows; a component-local SIGNAL is part
+of the current state: `sv sid path` is its value if the instance exists, a new instance starts at `init` -/
+def renderL (ρ : Nat → Int) (sv : Nat → List Nat → Option Int) : View → List Int → Int → List Nat → List Tok
+  | .text s, _, _, _ => [.text (.lit s)]
+  | .unit, _, _, _ => [.comment]
+  | .elem tag attrs kid, lv, key, path =>
+    [.open tag (attrs.map (renderAttrL ρ lv key))] ++ renderL ρ sv kid lv key path ++ [.close]
+  | .seq a b, lv, key, path => renderL ρ sv a lv key path ++ renderL ρ sv b lv key path
+  | .dynText x, lv, key, _ => [.text (.int (Reactive.evalPure ρ (x.valued lv key)))]
+  | .either c a b, lv, key, path =>
+    if Reactive.evalPure ρ (c.valued lv key) != 0 then renderL ρ sv a [] 0 path else renderL ρ sv b [] 0 path
+  | .show c a b, lv, key, path =>
+    if Reactive.evalPure ρ (c.valued lv key) != 0 then renderL ρ sv a [] 0 path else renderL ρ sv b [] 0 path
+  | .forKeyed sel lists, lv, key, _ =>
+    (listAt lists (Reactive.evalPure ρ (sel.valued lv key))).flatMap rowTree ++ [.comment]
+  | .scope sid d kid, lv, key, path =>
+    let v := match d with
+      | .memo b => Reactive.evalPure ρ (b.valued lv key)
+      | .sig init => (sv sid path).getD init
+    renderL ρ sv kid (v :: lv) key path
+  | .forRows sel lists row, lv, key, path =>
+    (listAt lists (Reactive.evalPure ρ (sel.valued lv key))).flatMap (fun (k : Nat) =>
+      [.open "li" [], .text (.lit (toString k))] ++ renderL ρ sv row [] (k : Int) (path ++ [k]) ++ [.close])
+      ++ [.comment]
+
+/-- the component-local signals of a state tree with the keys of the rows around them -/
+def RState.sigPaths : RState → List Nat → List (Nat × List Nat × Nat)
+  | .text _ _, _ => []
+  | .unit _, _ => []
+  | .elem _ _ _ kid, p => kid.sigPaths p
+  | .seq a b, p => a.sigPaths p ++ b.sigPaths p
+  | .dynText _ _ _ _, _ => []
+  | .either _ _ _ _ _ inner, p => inner.sigPaths p
+  | .show _ _ _ _ _ _ inner, p => inner.sigPaths p
+  | .forK _ _ _ _ _, _ => []
+  | .scope m sid isSig inner, p => (if isSig then [(sid, p, m)] else []) ++ inner.sigPaths p
+  | .rows _ _ _ _ _ items, p => items.sigPaths p
+  | .rowCons k r rest, p => r.sigPaths (p ++ [k]) ++ rest.sigPaths p
+  | .rowNil, _ => []
+
+/-- the from-scratch DOM of a view for node values `ρ` (fresh component-local signals) -/
 def render (ρ : Nat → Int) : View → List Tok
   | .text s => [.text (.lit s)]
   | .unit => [.comment]
@@ -539,6 +786,8 @@ def render (ρ : Nat → Int) : View → List Tok
   | .either c a b => if Reactive.evalPure ρ c != 0 then render ρ a else render ρ b
   | .show c a b => if Reactive.evalPure ρ c != 0 then render ρ a else render ρ b
   | .forKeyed sel lists => (listAt lists (Reactive.evalPure ρ sel)).flatMap rowTree ++ [.comment]
+  | .scope sid d kid => renderL ρ (fun _ _ => none) (.scope sid d kid) [] 0 []
+  | .forRows sel lists row => renderL ρ (fun _ _ => none) (.forRows sel lists row) [] 0 []
 
 /-- from-scratch values of all nodes of the current program for the current signal values -/
 def St.env (st : St) : Nat → Int := fun i => Reactive.specVal st.prog st.rs i
@@ -583,6 +832,45 @@ def View.wf (k : Nat) : View → Bool
   | .show c a b => c.readsBelow k && c.noWrite && c.noUntracked && a.wf k && b.wf k
   | .forKeyed sel lists =>
     sel.readsBelow k && sel.noWrite && sel.noUntracked && !lists.isEmpty && lists.all nodupNat
+  -- views with component-local state are outside the class of the theorems (see `View.wfX`)
+  | .scope _ _ _ => false
+  | .forRows _ _ _ => false
+
+/-- an expression of the extended grammar: global reads below `k`, `scope` references below `depth`,
+the row key only inside a row, no writes -/
+def _root_.Leptos.Reactive.Expr.okL (k depth : Nat) (inRow : Bool) : Expr → Bool
+  | .lit _ => true
+  | .rd true id => id < k
+  | .rd false 0 => inRow
+  | .rd false (j + 1) => j < depth
+  | .add a b => a.okL k depth inRow && b.okL k depth inRow
+  | .mulc _ a => a.okL k depth inRow
+  | .ite c t e => c.okL k depth inRow && t.okL k depth inRow && e.okL k depth inRow
+  | .seq _ _ => false
+  | .wr _ _ => false
+
+def Attr.okL (k depth : Nat) (inRow : Bool) : Attr → Bool
+  | .stat _ _ => true
+  | .dyn _ x => x.okL k depth inRow
+  | .cls _ x => x.okL k depth inRow
+  | .sty _ x => x.okL k depth inRow
+
+/-- well-formedness of the extended grammar (the correspondence driver's input check): component-local
+state and the row key are read at the level of the component body that created them — not from inside
+the branches of an `either` / `Show` or the rows of a `<For>` below it (those see their own) -/
+def View.wfX (k : Nat) : View → Nat → Bool → Bool
+  | .text _, _, _ => true
+  | .unit, _, _ => true
+  | .elem _ attrs kid, d, r =>
+    attrs.all (Attr.okL k d r) && nodupKeys (attrs.map Attr.key) && kid.wfX k d r
+  | .seq a b, d, r => a.wfX k d r && b.wfX k d r
+  | .dynText x, d, r => x.okL k d r
+  | .either c a b, d, r => c.okL k d r && a.wfX k 0 false && b.wfX k 0 false
+  | .show c a b, d, r => c.okL k d r && a.wfX k 0 false && b.wfX k 0 false
+  | .forKeyed sel lists, d, r => sel.okL k d r && !lists.isEmpty && lists.all nodupNat
+  | .scope _ (.memo b) kid, d, r => b.okL k d r && kid.wfX k (d + 1) r
+  | .scope _ (.sig _) kid, d, r => kid.wfX k (d + 1) r
+  | .forRows sel lists row, d, r => sel.okL k d r && !lists.isEmpty && lists.all nodupNat && row.wfX k 0 true
 
 def defsOk (defs : Prog) : Bool :=
   Reactive.WF defs && defs.all fun d => match d with
